@@ -204,6 +204,21 @@ theorem C14_failed_apply_unchanged (w : String) (ns : String) (tbl : Table) (p :
     validateRefs (recovered (applyNs w tbl ns p t) t) = validateRefs t := by
   rw [h]; exact ⟨rfl, rfl⟩
 
+/-- **`ApplySelf` on the root re-links every nested scope against ITS OWN objects**, whatever the
+    nested references were linked to before (nothing, a plain `&ScopeSchema{}` value that never
+    applied itself, a tree rebuilt from its description, an object that has since been replaced):
+    after a successful root-level application of the self namespace every self-namespace occurrence
+    below a scope carries the entry of its nearest enclosing scope's table. -/
+theorem C14_root_self_relinks_nested (tbl : Table) (t t' : LTy) (h : applyNs "" tbl "" [] t = .ok t') :
+    ∀ o ∈ occs "" none [] t', o.ns = "" → ∀ tb, o.ctx = some tb → o.link = lookupS o.id tb := by
+  intro o ho hns tb hctx
+  rw [applyNs_occs "" "" t tbl none [] t' (fun _ => rfl) h] at ho
+  obtain ⟨o₀, _, rfl⟩ := List.mem_map.mp ho
+  obtain ⟨_, hns0, hctx0, _⟩ := relink_fields tbl "" o₀
+  rw [hns0] at hns
+  rw [hctx0] at hctx
+  simp [relink, hns, hctx]
+
 /-- **`ValidateReferences` succeeds exactly when every reference is linked** - at any depth:
     `occs` lists the references below properties, list items, map keys and values, one-of members,
     and in ALL objects of every (inner) scope, reachable from the root object or not. -/
@@ -660,6 +675,7 @@ end Arca
 #print axioms Arca.C14_reapply_anywhere
 #print axioms Arca.C14_rebind_last_wins
 #print axioms Arca.C14_apply_panics_iff
+#print axioms Arca.C14_root_self_relinks_nested
 #print axioms Arca.C14_failed_apply_unchanged
 #print axioms Arca.C14_rebind_every_occurrence
 #print axioms Arca.C14_validate_refs_iff
